@@ -61,8 +61,11 @@ PROPS["C11"] = {
     "technique": "property-based testing with per-container exhaustive index/bounds sweep against the stated law (rapid + reference model)",
     "tests": [
         {"name": "TestProp", "quick": {"shards": 8, "checks": 120}, "thorough": {"shards": 16, "checks": 1500}},
+        {"name": "TestHistory", "quick": {"shards": 8, "checks": 2500}, "thorough": {"shards": 16, "checks": 25000}},
     ],
-    "rule": "cases: one program per (container, probe); probes = read c[i], write c[i]=v (with an alias observing), slice c[a:b] followed by "
+    "rule": "cases: one program per (container, probe), and one per history (TestHistory: strings and arrays in variables that are indexed, "
+            "sliced, concatenated from slices, re-assigned, stored into and read again, every variable observed with len and 5 indices after every step; "
+            "non-trivial = at least two kinds of operation); probes = read c[i], write c[i]=v (with an alias observing), slice c[a:b] followed by "
             "freshness tests (mutating source and slice in turn); index given as literal, arithmetic expression or variable. Non-trivial = "
             "index or a bound in {-n-1,-n,-1,0,n-1,n,n+1}, or a special value, or a non-ASCII string; distinct by source text.",
     "exhaustive_part": "integer window [-n-2, n+2] for reads, writes and all bound pairs, per generated container",
